@@ -501,7 +501,8 @@ func quiescentOnce(buf []byte) (bool, string) {
 			return false, head
 		}
 		// timer-driven waits inside a select: retry back-off and explicit sleeps
-		if strings.Contains(g, "/util/retry.Do") || strings.Contains(g, "time.Sleep") {
+		// (GetChannelChan polls the ts manager once a second until the target's first handler has started)
+		if strings.Contains(g, "/util/retry.Do") || strings.Contains(g, "time.Sleep") || strings.Contains(g, ").GetChannelChan(") {
 			return false, head
 		}
 	}
